@@ -96,3 +96,30 @@ Theorem C04_reset_seeds_are_code : forall dep arr rows,
   seed_taur arr rows = fold_left (fun m r => upd m (fp_node r) (G.gen_reset_egr_seed dep arr (fp_time r))) rows (fun _ => -1).
 Proof. exact reset_seeds_tie. Qed.
 Print Assumptions C04_reset_seeds_are_code.
+
+(* tie to the source, stage 3: the CONTROL SKELETON itself (which statement sits inside which `if`, the order of the
+   guarded blocks, where `break` / `continue` sit, which variable every assignment writes) is read from the C++ source
+   AS IT IS NOW by tools/gen_skel.py (gen/Skel.v) and executed by the interpreter of Skel.v with the guards of
+   gen/Guards.v; the model's step computes the same state, for all values `l0` left in the function-level locals *)
+Require Import TrV.Skel.
+From TrV Require Import Proofs.SkelTie.
+Theorem C04_rev_step_skeleton_is_code : forall d p k st c l0,
+  rstate_eq (rev_step d p k false st c) (run_rev rev_code d p k c GS.gen_rev_skel l0 st).
+Proof. exact rev_step_skel_tie. Qed.
+Print Assumptions C04_rev_step_skeleton_is_code.
+Theorem C04_rev_footpath_loop_skeleton_is_code : forall d p k c m r,
+  nth (rl_idx (rm_l m)) (rev_rows d c) row_default = r ->
+  let res := rev_loop_step rev_code d p k c GS.gen_rev_fp (m, false) r in
+  snd res = false /\ rl_idx (rm_l (fst res)) = S (rl_idx (rm_l m)) /\
+  rm_st (fst res) =
+  r_set_triple (rm_st m) (rev_fp_step p k c (minw_eff p c) (o_exit (r_ov (rm_st m) (c_trip c))) (r_triple (rm_st m)) r).
+Proof. exact rev_fp_step_skel_tie. Qed.
+Print Assumptions C04_rev_footpath_loop_skeleton_is_code.
+(* ... and the whole scan: entry slot as the source computes it, then the loop body iterated with the locals kept from
+   one connection to the next, whatever they hold at the start *)
+Theorem C04_rev_scan_skeleton_is_code : forall d p k l_init,
+  outcome_rel rstate_eq (rev_scan d p k false)
+    (rev_scan_skel rev_code GS.gen_rev_skel
+       (G.gen_rev_entry_hour (k_dep k) (k_arr k) (k_minAcc k) (k_minEgr k) (q_minw p) (k_maxAcc k) (k_maxEgr k)) l_init d p k).
+Proof. exact rev_scan_skel_tie. Qed.
+Print Assumptions C04_rev_scan_skeleton_is_code.
